@@ -353,6 +353,7 @@ type Pair struct {
 	C, S    *Conn
 	IsReset bool
 	Why     string
+	Tag     string // set by the harness (e.g. "raw" for scripted peers)
 
 	accounted bool
 }
